@@ -282,6 +282,13 @@ def require_all(
     def authenticate(req: falcon.Request) -> AuthContext:
         claims = gate(req)
         if inner is None:
+            if claims.get("verified") == "false":
+                # An allow-mode gate lets an unproven request through *as an
+                # anonymous one* (proxy-proof-spec: "on failure it proceeds
+                # anonymously"); it must not be promoted to an authenticated
+                # caller just because no inner authenticator was given.  The
+                # gate's claims are kept so the outcome remains observable.
+                return AuthContext(domain=None, authenticated=False, claims={gate.claims_key: claims})
             return AuthContext(
                 domain=gate.name,
                 authenticated=True,
